@@ -353,6 +353,11 @@ fn run_eval_g<S: PPGEvaluatorStrategy>(
                         }
                     }
                     res.engine_error = Some(format!("{} {}", $what, msg));
+                    if let PPGEvaluatorError::APIError(_) = &e {
+                        // the driver only starts what is reported ready, finishes what is reported running and
+                        // acknowledges what is reported ready for cleanup: a refusal contradicts the report
+                        res.v("C17", format!("reported-set-contradicted-by-refusal/{}", $what), format!("{}: {}", $what, msg));
+                    }
                     res.v("C05", format!("evaluation-cannot-finish/legal-call-refused/{}", stem), format!("{}: {}", $what, msg));
                     res.v("C06", stem, format!("{}: {}", $what, msg));
                     res.transitions.extend(take_transitions());
